@@ -102,15 +102,32 @@ theorem ext_timerSet (now : Rat) (k : K) (d : Rat) (cb : Cb) (hd : now ≤ d) : 
   · exact Or.inl hx
   · subst hx; exact Or.inr hd
 
-theorem shr_handle_go (a : Nat) (l : List Nat) (k : K) : Shr k (K.handle.go a k l) := by
+theorem ext_register (now : Rat) (k : K) (i a : Nat) : Ext now k (k.register i a) := by
+  unfold K.register
+  refine ⟨fun _ h => Or.inl h, fun _ h => Or.inl h, ?_, ?_⟩
+  · intro im him
+    have : im.sfk ∈ (upd k.impls i fun x => { x with simcalls := x.simcalls ++ [a] }).map Impl.sfk :=
+      List.mem_map.mpr ⟨im, him, rfl⟩
+    rw [map_upd_inv _ _ _ _ (by intro _; rfl)] at this
+    obtain ⟨im0, h0, he⟩ := List.mem_map.mp this
+    unfold Impl.sfk at he
+    injection he with _ h2
+    injection h2 with h2 h3
+    exact Or.inl ⟨im0, h0, h2.symm, h3.symm⟩
+  · intro b
+    have := actor_setActor_proj (·.pending) (k.setImpl i fun x => { x with simcalls := x.simcalls ++ [a] }) a b
+      (fun x => { x with waiting := x.waiting ++ [i] }) (by intro _; rfl)
+    exact Or.inl this
+
+theorem ext_handle_go (now : Rat) (a : Nat) (l : List Nat) (k : K) : Ext now k (K.handle.go a k l) := by
   induction l generalizing k with
-  | nil => unfold K.handle.go; exact Shr.refl k
+  | nil => unfold K.handle.go; exact Ext.refl now k
   | cons i rest ih =>
     unfold K.handle.go
     simp only []
     split
-    · exact (shr_register k i a).trans (shr_finish _ i)
-    · exact (shr_register k i a).trans (ih _)
+    · exact (ext_register now k i a).trans (Shr.ext now (shr_finish _ i))
+    · exact (ext_register now k i a).trans (ih _)
 
 theorem clampSleep_pos (d : Rat) (h : 0 < d) : 0 ≤ clampSleep prec d := by
   unfold clampSleep prec; split <;> (try split) <;> grind
@@ -123,14 +140,14 @@ theorem handle_ext (now : Rat) (k : K) (a : Nat) (r : Req) (h0 : 0 ≤ now) (hr 
   cases r with
   | sleep d =>
     simp only [K.handle]
-    refine Ext.trans ?_ (Shr.ext now (shr_register _ _ _))
+    refine Ext.trans ?_ (ext_register now _ _ _)
     refine Ext.trans (ext_newImpl now k _ (Rat.le_refl) rfl) (ext_heapPush now _ _ ?_ ?_)
     · have := clampSleep_pos d hr; simp only; grind
     · intro h; cases h
   | start slot kind d =>
     simp only [K.handle]
     refine Ext.trans ?_ (Shr.ext now (shr_answer _ _))
-    refine Ext.trans ?_ (Shr.ext now (shr_setActor _ _ _ (by intro _; exact Or.inl rfl)))
+    refine Ext.trans ?_ (Shr.ext now (shr_setActor _ _ _ (by fr_side)))
     refine Ext.trans (ext_newImpl now k _ (Rat.le_refl) rfl) (ext_heapPush now _ _ ?_ ?_)
     · obtain ⟨h1, h2⟩ := hr
       split
@@ -144,48 +161,48 @@ theorem handle_ext (now : Rat) (k : K) (a : Nat) (r : Req) (h0 : 0 ≤ now) (hr 
     simp only [K.handle]
     split
     · refine Ext.trans ?_ (Shr.ext now (shr_answer _ _))
-      refine Ext.trans ?_ (Shr.ext now (shr_setActor _ _ _ (by intro _; exact Or.inl rfl)))
+      refine Ext.trans ?_ (Shr.ext now (shr_setActor _ _ _ (by fr_side)))
       refine Ext.trans ?_ (Shr.ext now (shr_finish _ _))
       exact Shr.ext now (shr_setImpl _ _ _ (by intro _; rfl))
     · refine Ext.trans ?_ (Shr.ext now (shr_answer _ _))
-      refine Ext.trans ?_ (Shr.ext now (shr_setActor _ _ _ (by intro _; exact Or.inl rfl)))
+      refine Ext.trans ?_ (Shr.ext now (shr_setActor _ _ _ (by fr_side)))
       exact ext_newImpl now k _ hm rfl
   | iput slot q =>
     simp only [K.handle]
     split
     · refine Ext.trans ?_ (Shr.ext now (shr_answer _ _))
-      refine Ext.trans ?_ (Shr.ext now (shr_setActor _ _ _ (by intro _; exact Or.inl rfl)))
+      refine Ext.trans ?_ (Shr.ext now (shr_setActor _ _ _ (by fr_side)))
       refine Ext.trans ?_ (Shr.ext now (shr_finish _ _))
       exact Shr.ext now (shr_setImpl _ _ _ (by intro _; rfl))
     · refine Ext.trans ?_ (Shr.ext now (shr_answer _ _))
-      refine Ext.trans ?_ (Shr.ext now (shr_setActor _ _ _ (by intro _; exact Or.inl rfl)))
+      refine Ext.trans ?_ (Shr.ext now (shr_setActor _ _ _ (by fr_side)))
       exact ext_newImpl now k _ hm rfl
   | waitFor i tau =>
     simp only [K.handle]
     split
-    · exact Shr.ext now ((shr_register _ _ _).trans (shr_finish _ _))
+    · exact (ext_register now _ _ _).trans (Shr.ext now (shr_finish _ _))
     · split
       · rename_i ht
-        refine Ext.trans ?_ (Shr.ext now (shr_setActor _ _ _ (by intro _; exact Or.inl rfl)))
-        refine Ext.trans (Shr.ext now (shr_register _ _ _)) (ext_timerSet now _ _ _ ?_)
+        refine Ext.trans ?_ (Shr.ext now (shr_setActor _ _ _ (by fr_side)))
+        refine Ext.trans (ext_register now _ _ _) (ext_timerSet now _ _ _ ?_)
         grind
-      · exact Shr.ext now (shr_register _ _ _)
+      · exact ext_register now _ _ _
   | waitAny is tau =>
     simp only [K.handle]
-    refine Ext.trans ?_ (Shr.ext now (shr_handle_go _ _ _))
+    refine Ext.trans ?_ (ext_handle_go now _ _ _)
     split
-    · exact Shr.ext now ((shr_setActor _ _ _ (by intro _; exact Or.inl rfl)).trans
-        (shr_setActor _ _ _ (by intro _; exact Or.inl rfl)))
+    · exact Shr.ext now ((shr_setActor _ _ _ (by fr_side)).trans
+        (shr_setActor _ _ _ (by fr_side)))
     · rename_i ht
-      refine Ext.trans ?_ (Shr.ext now (shr_setActor _ _ _ (by intro _; exact Or.inl rfl)))
-      refine Ext.trans (Shr.ext now (shr_setActor _ _ _ (by intro _; exact Or.inl rfl))) (ext_timerSet now _ _ _ ?_)
+      refine Ext.trans ?_ (Shr.ext now (shr_setActor _ _ _ (by fr_side)))
+      refine Ext.trans (Shr.ext now (shr_setActor _ _ _ (by fr_side))) (ext_timerSet now _ _ _ ?_)
       grind
   | test i =>
     simp only [K.handle]
     refine Ext.trans ?_ (Shr.ext now (shr_answer _ _))
     split
-    · exact Shr.ext now ((shr_finish _ _).trans (shr_setActor _ _ _ (by intro _; exact Or.inl rfl)))
-    · exact Shr.ext now (shr_setActor _ _ _ (by intro _; exact Or.inl rfl))
+    · exact Shr.ext now ((shr_finish _ _).trans (shr_setActor _ _ _ (by fr_side)))
+    · exact Shr.ext now (shr_setActor _ _ _ (by fr_side))
   | cancel i =>
     simp only [K.handle]
     exact Shr.ext now ((shr_cancel _ _).trans (shr_answer _ _))
@@ -195,7 +212,7 @@ theorem handle_ext (now : Rat) (k : K) (a : Nat) (r : Req) (h0 : 0 ≤ now) (hr 
     split
     · exact Ext.refl now k
     · rename_i ht
-      refine Ext.trans ?_ (Shr.ext now (shr_setActor _ _ _ (by intro _; exact Or.inl rfl)))
+      refine Ext.trans ?_ (Shr.ext now (shr_setActor _ _ _ (by fr_side)))
       exact ext_timerSet now _ _ _ (by grind)
 
 /-! ### `handle_ended_actions` -/
@@ -253,7 +270,7 @@ theorem handlePending_dinv (now : Rat) (h0 : 0 ≤ now) (l : List Nat) (k : K) (
       simp only []
       refine ih _ ?_
       have h1 : DInv now (k.setActor a fun x => { x with pending := none }) :=
-        h.shr (shr_setActor _ _ _ (by intro _; exact Or.inr (Or.inl rfl)))
+        h.shr (shr_setActor _ _ _ (by fr_side))
       split
       · exact h1
       · exact h1.ext (handle_ext now _ a r h0 hr')
@@ -316,7 +333,7 @@ theorem popWindow_dinv (now : Rat) (n : Nat) (s : St) (re : List HeapE) (hn : s.
         · apply ih
           · simpa only [pick_now] using hn
           · refine h.shr ?_
-            refine ⟨List.Sublist.refl _, removeNth_sublist _ _, rfl, ?_, rfl, fun _ => Or.inl rfl⟩
+            refine ⟨List.Sublist.refl _, removeNth_sublist _ _, rfl, ?_, rfl, fun _ => Or.inl rfl, fun _ h => h, fun _ h => h⟩
             simp only [K.setImpl]
             rw [map_upd_inv]
             intro _; rfl
